@@ -3,6 +3,8 @@ using namespace smooth;
 template<typename G>
 static void se2_parts(c16::Harness<G> & h)
 {
+  h.addview("r2()", 0, 2, [](const auto & x) { return x.r2().eval(); });
+  h.addview("so2()", 2, 2, [](const auto & x) { return x.so2().coeffs().eval(); });
   h.add("m.r2() = value#1.r2()", 0, 2, [](auto & x, const auto & p) { x.r2() = p.g[1].r2(); });
   h.add("m.r2() *= 2", 0, 2, [](auto & x, const auto &) { x.r2() *= 2; });
   h.add("m.r2().setZero()", 0, 2, [](auto & x, const auto &) { x.r2().setZero(); });
@@ -13,6 +15,8 @@ static void se2_parts(c16::Harness<G> & h)
 template<typename G>
 static void se3_parts(c16::Harness<G> & h)
 {
+  h.addview("r3()", 0, 3, [](const auto & x) { return x.r3().eval(); });
+  h.addview("so3()", 3, 4, [](const auto & x) { return x.so3().coeffs().eval(); });
   h.add("m.r3() = value#1.r3()", 0, 3, [](auto & x, const auto & p) { x.r3() = p.g[1].r3(); });
   h.add("m.r3() *= 2", 0, 3, [](auto & x, const auto &) { x.r3() *= 2; });
   h.add("m.r3().setZero()", 0, 3, [](auto & x, const auto &) { x.r3().setZero(); });
